@@ -2,7 +2,7 @@
 
 import random
 from collections import defaultdict
-from collections.abc import Hashable, Iterable
+from collections.abc import Hashable, Iterable, Iterator
 from copy import copy, deepcopy
 from itertools import count
 from warnings import warn
@@ -717,6 +717,8 @@ class Hypergraph:
                     warn(f"uid {idx} already exists, cannot add edge {members}.")
                     continue
                 try:
+                    if isinstance(members, Iterator):
+                        members = list(members)  # a one-shot iterator is read once
                     member_set = set(members)
                 except TypeError as e:
                     raise XGIError("Invalid ebunch format") from e
@@ -741,6 +743,8 @@ class Hypergraph:
             first_edge = next(new_edges)
         except StopIteration:
             return
+        if isinstance(first_edge, Iterator):
+            first_edge = list(first_edge)  # looking into it must not use it up
         try:
             first_elem = list(first_edge)[0]
         except (TypeError, IndexError):
@@ -780,6 +784,8 @@ class Hypergraph:
                 warn(f"uid {idx} already exists, cannot add edge {members}.")
             else:
                 try:
+                    if isinstance(members, Iterator):
+                        members = list(members)  # a one-shot iterator is read once
                     member_set = set(members)
                 except TypeError as e:
                     raise XGIError("Invalid ebunch format") from e
